@@ -194,15 +194,19 @@ func FromSlice[T comparable](data []T, comp gogu.CompFn[T]) *Heap[T] {
 
 // Merge joins two heaps into a new one preserving the original ones.
 func (h *Heap[T]) Merge(h2 *Heap[T]) *Heap[T] {
+	h.mu.RLock()
 	newHeap := NewHeap(h.comp)
 
 	for i := 0; i < h.size(); i++ {
 		newHeap.Push(h.data[i])
 	}
+	h.mu.RUnlock()
 
+	h2.mu.RLock()
 	for i := 0; i < h2.size(); i++ {
 		newHeap.Push(h2.data[i])
 	}
+	h2.mu.RUnlock()
 
 	return newHeap
 }
@@ -210,17 +214,21 @@ func (h *Heap[T]) Merge(h2 *Heap[T]) *Heap[T] {
 // Meld merge two heaps into a new one containing all the
 // elements of both and destroying the original ones.
 func (h *Heap[T]) Meld(h2 *Heap[T]) *Heap[T] {
+	h.mu.Lock()
 	newHeap := NewHeap(h.comp)
 
 	for i := 0; i < h.size(); i++ {
 		newHeap.Push(h.data[i])
 	}
+	h.data = nil
+	h.mu.Unlock()
 
+	h2.mu.Lock()
 	for i := 0; i < h2.size(); i++ {
 		newHeap.Push(h2.data[i])
 	}
-	h.data = nil
 	h2.data = nil
+	h2.mu.Unlock()
 
 	return newHeap
 }
